@@ -76,6 +76,17 @@ type StepFault struct {
 	Action string `json:"action"`
 	Errno  string `json:"errno,omitempty"`
 	Keep   int64  `json:"keep,omitempty"`
+	Gate   string `json:"gate,omitempty"`
+}
+
+// Peer is a second yq process that shares the working directory and TMPDIR of the scenario's process.
+// The simulator decides the interleaving of the two: the first process parks at the GatePick-th step
+// boundary of its own run (counted over its step events; 0 = the first), the peer then runs from start
+// to end, and the first process goes on. If the first process ends without reaching the gate the peer runs after it.
+type Peer struct {
+	Argv     []string `json:"argv"`
+	GateSite string   `json:"gate_site"`
+	GateOcc  int      `json:"gate_occ"`
 }
 
 type ReaderPlan struct {
@@ -152,6 +163,8 @@ type Scenario struct {
 	StdoutDevFull bool `json:"stdout_dev_full,omitempty"`
 	// Strace injection (thorough tier): e.g. "renameat:error=EBUSY"
 	Strace string `json:"strace,omitempty"`
+	// Peer: a second process in the same directories, run while the first is parked at a step boundary
+	Peer *Peer `json:"peer,omitempty"`
 	// Meta carries what the generator knows and the oracles need.
 	Meta map[string]any `json:"meta,omitempty"`
 	// Lib is the libsim part (C18 b/c/d).
